@@ -46,7 +46,8 @@ def build_run(tag, stmts, units, flavour="G_O0", std="c++14", decls="", extra_in
     exe = os.path.join(d, f"{tag}.exe")
     stmts = list(stmts)
     rejected = {}
-    for attempt in range(4):
+    last_err = ""
+    for attempt in range(8):
         core.write(src, emit(stmts, units, decls, extra_includes))
         rc, se = core.build(src, exe, flavour, std=std, timeout=timeout, extra_flags=extra_flags)
         if rc == 0:
@@ -55,12 +56,13 @@ def build_run(tag, stmts, units, flavour="G_O0", std="c++14", decls="", extra_in
             raise core.Inconclusive(f"plane B TU {tag} compile timeout")
         by, loose = ccmon.attribute(se)
         bad = {k // 10: v for k, v in by.items()}
+        last_err = next((l for l in se.splitlines() if ": error:" in l), "")[:300]
         if not bad:
             raise core.Inconclusive(f"plane B TU {tag} ({flavour} {std}) failed to compile with no attributable statement: {se[:600]}")
         rejected.update(bad)
         stmts = [s for s in stmts if s[0] not in bad]
     else:
-        raise core.Inconclusive(f"plane B TU {tag} still fails to compile after dropping statements")
+        raise core.Inconclusive(f"plane B TU {tag} still fails to compile after dropping statements; last error: {last_err}")
     env = dict(os.environ)
     env["ASAN_OPTIONS"] = "detect_leaks=0:abort_on_error=0:exitcode=66"
     rc, so, se = core.sh([exe], timeout=600, env=env)
